@@ -1478,3 +1478,8 @@ def b_fingerings(tier, rnd):
             cases.append((f,))
     return {"rule": "every fingering of 1..4 strings over frets {0,1,2,3,5} with a pressed string; 300 seeded ones of 5..7 strings",
             "exhaustive_upto": 4, "cases": cases}
+
+
+@battery("small_ints_wide")
+def b_small_ints_wide(tier, rnd):
+    return {"rule": "every width -5..400", "cases": [(n,) for n in range(-5, 401)]}
